@@ -326,14 +326,35 @@ class World:
                 'file': self.file_bytes()}
 
     def canon(self, roles):
+        """Model state + the implementation's own protection state (which of the role passwords it holds, which
+        one really decrypts the in-memory ciphertexts and the ones in the file, found with the independent AES
+        reference) - two histories are merged only if both agree, i.e. only if they have the same futures."""
         w = self.w
         inv = {v: k for k, v in reversed(list(roles.items()))}
         m = self.m
         f = m['file']
+
+        def opener(ciphertext):
+            if not ciphertext:
+                return None
+            for role in ('p', 'q', 'w'):
+                if ref_decrypts(roles[role], ciphertext):
+                    return role
+            return '?'
+        mem = tuple((a.encrypted, bool(a.seed), a.private_key is not None, bool(a.private_key_string),
+                     tuple(sorted(a.init_vectors)),
+                     (opener(a.seed), opener(a.private_key_string)) if a.encrypted else None) for a in w.accounts)
+        data = self.file_bytes()
+        on_disk = None
+        if data is not None:
+            try:
+                on_disk = tuple((bool(a.get('encrypted')), (opener(a.get('seed')), opener(a.get('private_key')))
+                                 if a.get('encrypted') else None) for a in json.loads(data)['accounts'])
+            except ValueError:
+                on_disk = 'unparseable'
         return (m['locked'], inv.get(m['mem'], m['mem']), m['pref'], inv.get(m['key'], m['key']),
                 None if f is None else (f[0], inv.get(f[1], f[1]), f[2]),
-                tuple((a.encrypted, bool(a.seed), a.private_key is not None, bool(a.private_key_string),
-                       tuple(sorted(a.init_vectors))) for a in w.accounts),
+                mem, on_disk, inv.get(w.encryption_password, w.encryption_password is not None),
                 w.preferences.get(self.PREF, None))
 
     # -- the statement's invariants, checked in every state ------------------------------------------
@@ -709,12 +730,39 @@ def bfs_item(item, res):
 def ref_padding_valid(password, b64text):
     """Independent AES-CBC/PKCS7 reference: does this wrong password produce valid padding?"""
     from cryptography.hazmat.primitives.ciphers import Cipher, algorithms, modes
-    raw = base64.b64decode(b64text)
+    try:
+        raw = base64.b64decode(b64text, validate=True)
+    except ValueError:
+        return False                       # not a ciphertext at all
+    if len(raw) < 32 or len(raw) % 16:
+        return False
     key = hashlib.sha256(hashlib.sha256(password.encode()).digest()).digest()
     dec = Cipher(algorithms.AES(key), modes.CBC(raw[:16])).decryptor()
     pt = dec.update(raw[16:]) + dec.finalize()
     n = pt[-1]
     return 1 <= n <= 16 and pt[-n:] == bytes([n]) * n
+
+
+def ref_decrypts(password, b64text):
+    """Independent reference: does this password open this ciphertext (valid base64, padding and UTF-8)?"""
+    from cryptography.hazmat.primitives.ciphers import Cipher, algorithms, modes
+    try:
+        raw = base64.b64decode(b64text, validate=True)
+    except ValueError:
+        return False
+    if len(raw) < 32 or len(raw) % 16:
+        return False
+    key = hashlib.sha256(hashlib.sha256(password.encode()).digest()).digest()
+    dec = Cipher(algorithms.AES(key), modes.CBC(raw[:16])).decryptor()
+    pt = dec.update(raw[16:]) + dec.finalize()
+    n = pt[-1]
+    if not (1 <= n <= 16 and pt[-n:] == bytes([n]) * n):
+        return False
+    try:
+        pt[:-n].decode('utf-8')
+    except UnicodeDecodeError:
+        return False
+    return True
 
 
 SWEEP_KEY = 'correct horse battery staple'
@@ -741,8 +789,10 @@ def sweep_item(item, res):
             return
         fields = []
         for a in world.w.accounts:
-            fields += [x for x in (a.seed, a.private_key_string) if x]
+            if a.encrypted:
+                fields += [x for x in (a.seed, a.private_key_string) if x]
         before = world.observe()
+        n_bad = 0
         for i in range(lo, hi):
             pw = f'pw{i}'
             res.count('evaluations')
@@ -771,6 +821,10 @@ def sweep_item(item, res):
                 sig.update({k: v for k, v in bad.extra.items() if k in ('field', 'exc')})
                 res.violation(sig, f'[{kind}/{variant}] {bad.what}',
                               {'mode': 'sweep', 'kind': kind, 'variant': variant, 'i': i, 'rng_seed': rng_seed})
+                n_bad += 1
+                if n_bad > VIOLATION_LIMIT:
+                    res.count('capped')
+                    return
                 world = locked_wallet()
                 before = world.observe()
         # the wallet must still open with its own password
@@ -846,9 +900,14 @@ def crash_scenario(env, kind, scenario, journal):
     versions = []
     if pre:
         world = env.build(kind, journal=journal)
-        for op in pre:
-            world.apply(op, roles, probes=False, check=False)
+        try:
+            for op in pre:
+                world.apply(op, roles, probes=False, check=False)
+        except (Bad, Unmodelled) as e:
+            raise ScenarioBroken(f'{scenario}: {e}')
         data = world.file_bytes()
+        if data is None:
+            raise ScenarioBroken(f'{scenario}: no wallet file after {pre}')
         start_files[PATH] = data
         versions.append(json.loads(data))
         if scenario == 'stale-tmp':
@@ -885,13 +944,20 @@ def crash_scenario(env, kind, scenario, journal):
             elif name == 'lock':
                 w.lock()
             elif name == 'unlock':
-                assert env.loop.run(w.unlock(pw)) is True
+                if env.loop.run(w.unlock(pw)) is not True:
+                    raise ScenarioBroken(f'{scenario}: {op} did not unlock')
+    except AssertionError as e:
+        raise ScenarioBroken(f'{scenario}: {op} refused ({e})')
     finally:
         env.W.WalletStorage.write = real_write
     return fs, versions, spans, (0 if pre else -1)
 
 
-FULL_PRODUCT_LIMIT = 6000      # images per crash point enumerated as the full product over all files
+class ScenarioBroken(Exception):
+    """The wallet operations that drive a crash scenario do not work on this tree (the BFS part reports why)."""
+
+
+FULL_PRODUCT_LIMIT = 6000     # images per crash point enumerated as the full product over all files
 VIOLATION_LIMIT = 300          # per work item; beyond it the item stops (counted as capped)
 
 
@@ -928,7 +994,12 @@ def crash_item(item, res):
     _, kind, scenario, journal, torn, rng_seed = item
     env = Env(rng_seed)
     try:
-        fs, versions, spans, initial = crash_scenario(env, kind, scenario, journal)
+        try:
+            fs, versions, spans, initial = crash_scenario(env, kind, scenario, journal)
+        except ScenarioBroken:
+            res.tally('crash_scenario_not_runnable')      # never on a tree where part (a) is silent
+            res.count('capped')
+            return
         mode = 'journal' if journal else 'strict'
         low_water = initial
         per_point = []
@@ -1026,7 +1097,10 @@ def rename_fault_probe(env, kind, res):
         return None
     fs.fault_hook = hook
     env.use_fs(fs)
-    env.W.WalletStorage(PATH).write({'version': 1, 'name': 'x', 'preferences': {}, 'accounts': []})
+    try:
+        env.W.WalletStorage(PATH).write({'version': 1, 'name': 'x', 'preferences': {}, 'accounts': []})
+    except OSError:
+        res.tally('interpretation_only:rename_failure_propagates_from_write')
     for cp in fs.crash_points():
         for img in cp.images(torn='none'):
             if img.read(PATH) is None:
@@ -1104,6 +1178,24 @@ def run(ctx):
             'a watch-only wallet holds nothing encrypted: that any password "unlocks" it is tallied, not a violation',
             'channel certificates are stored as plaintext PEM by design and are not in the secret set',
         ],
+        alphabet={
+            'account_sets': {k: [r for r, _ in v] for k, v in KINDS.items()},
+            'passwords': 'strings of length 1-2 over {a, B, u-umlaut, CJK char, space} (30) + one 1024-character '
+                         f'password; this run: {[PASSWORDS[i] if len(PASSWORDS[i]) < 9 else "<1 KiB>" for i in pws]}',
+            'wrong_passwords': 'the second valid password q, a near miss w, and (non-branching, in every new locked '
+                               'state) every other alphabet password + near misses: trailing/leading blank, doubled, '
+                               'truncated, case-swapped, NFD/NFKC-normalised, umlaut stripped, NUL appended, mojibake',
+            'operations': OPS,
+            'crash_scenarios': {k: {'start_from': v[0], 'crashed_ops': v[1]} for k, v in SCENARIOS.items()},
+        },
+        interpretation=[
+            'atomic save: a crash image must read back as a complete version not newer than the save in progress and '
+            'never older than a version already durable (low-water mark); "the complete previous version" may be older '
+            'than the last save() that returned, because its rename is not followed by a directory fsync (tallied)',
+            'wrong password on a wallet that holds no secret (watch-only) is not judged (tallied)',
+            'unlock() on a wallet that is not locked, refused lock/decrypt/save, held-password bookkeeping, secrets in the '
+            'packed sync blob: outside the statement, tallied only',
+        ],
         expected_witnesses=['wrong_password_refused_wallet_unchanged', 'unlock_restored_secrets',
                             'reload_of_encrypted_file', 'pack_unpack_identity', 'wrong_password_valid_padding',
                             'file_scanned_while_encryption_enforced',
@@ -1156,8 +1248,12 @@ def replay(data):
             fs, versions, spans, initial = crash_scenario(env, data['kind'], data['scenario'], data['journal'])
             for op in fs.log:
                 log.append(f'  {op!r}')
-            cp = fs.crash_point(data['choice']['k'])
-            img = cp.image(data['choice'])
+            try:
+                cp = fs.crash_point(data['choice']['k'])
+                img = cp.image(data['choice'])
+            except (IndexError, KeyError, AssertionError) as e:
+                raise RuntimeError(f'replay diverged: the recorded crash point/image does not exist in the operation log '
+                                   f'this tree produces ({type(e).__name__}: {e})')
             idx, outcome = classify_image(env, img, versions)
             raw = img.read(PATH)
             log.append(img.describe())
